@@ -24,10 +24,11 @@
     [pre_reorder_mut] ([zchain_drop]) finds the complete chain (its structural
     search [zchain_ids] succeeds), as the code's [tautologies] vector holds it.
 
-    All algorithms run on the cache seen through [zcgetN n] / [zcaddN n] ([n] =
-    the current number of levels; the Restrict code's key carries [n],
-    [zkeyN_spec]); the drivers replay the extracted functions with an empty or
-    absent cache, where the view makes no difference.
+    All algorithms run on the plain cache [cget] / [cadd]; the key of a Restrict
+    entry carries the number of levels in the model [zrestrict] itself
+    (DD/ZbddBool.v, as the code since f8637cd).  [zkeyN_spec] describes the view
+    [zcgetN n] / [zcaddN n] through which the un-keyed [restrict] of the code
+    before the fix becomes the model (Mgr/HistoryZCache.v [zrestrict_view]).
 
     The only glue not covered by one of those runs: reading operands from /
     storing the result into slots ([zslot], [put]), the choice "cache kept /
@@ -58,11 +59,9 @@ Variable cempty : C.
 
 Notation hstep_z := (hstep_z gt C cget cadd cempty).
 Notation FUELZ st := (S (nlevels (hz_s C st))).
-Notation cgN st := (zcgetN C cget (nlevels (hz_s C st))).
-Notation caN st := (zcaddN C cadd (nlevels (hz_s C st))).
 
-(** the view: the Restrict code's numeric operands get the number of levels appended,
-    every other code is looked up / inserted as it is *)
+(** the view (not used by the state machine: [zrestrict_view]): the Restrict code's numeric
+    operands get the number of levels appended, every other code is looked up / inserted as it is *)
 Theorem zkeyN_spec : forall n c code args nums r,
   zcgetN C cget n c zcode_restrict args nums = cget c zcode_restrict args (nums ++ [n]) /\
   zcaddN C cadd n c zcode_restrict args nums r = cadd c zcode_restrict args (nums ++ [n]) r /\
@@ -84,24 +83,24 @@ Proof. intros st d b. simpl. destruct (zconst (hz_s C st) b); reflexivity. Qed.
 
 Theorem hstep_z_var : forall st d v,
   hstep_z st (ZHVar d v false) = zfinish0 C (hz_c C st) d (zvar (hz_s C st) v) /\
-  hstep_z st (ZHVar d v true) = zfinish C d (znot_var gt C (cgN st) (caN st) (FUELZ st) (hz_s C st) (hz_c C st) v).
+  hstep_z st (ZHVar d v true) = zfinish C d (znot_var gt C cget cadd (FUELZ st) (hz_s C st) (hz_c C st) v).
 Proof. intros st d v. split; reflexivity. Qed.
 
 Theorem hstep_z_not : forall st d a f, zslot C st a = Some f ->
-  hstep_z st (ZHNot d a) = zfinish C d (zapply_not gt C (cgN st) (caN st) (FUELZ st) (hz_s C st) (hz_c C st) f).
+  hstep_z st (ZHNot d a) = zfinish C d (zapply_not gt C cget cadd (FUELZ st) (hz_s C st) (hz_c C st) f).
 Proof. intros st d a f Ef. simpl. rewrite Ef. reflexivity. Qed.
 
 Theorem hstep_z_bin : forall st op d a b f g, zslot C st a = Some f -> zslot C st b = Some g ->
-  hstep_z st (ZHBin op d a b) = zfinish C d (zapply_op gt C (cgN st) (caN st) (FUELZ st) (hz_s C st) (hz_c C st) op f g).
+  hstep_z st (ZHBin op d a b) = zfinish C d (zapply_op gt C cget cadd (FUELZ st) (hz_s C st) (hz_c C st) op f g).
 Proof. intros st op d a b f g Ef Eg. simpl. rewrite Ef, Eg. reflexivity. Qed.
 
 Theorem hstep_z_ite : forall st d a b c f g h,
   zslot C st a = Some f -> zslot C st b = Some g -> zslot C st c = Some h ->
-  hstep_z st (ZHIte d a b c) = zfinish C d (zapply_ite gt C (cgN st) (caN st) (FUELZ st) (hz_s C st) (hz_c C st) f g h).
+  hstep_z st (ZHIte d a b c) = zfinish C d (zapply_ite gt C cget cadd (FUELZ st) (hz_s C st) (hz_c C st) f g h).
 Proof. intros st d a b c f g h Ef Eg Eh. simpl. rewrite Ef, Eg, Eh. reflexivity. Qed.
 
 Theorem hstep_z_restrict : forall st d a cube f vs, zslot C st a = Some f -> zslot C st cube = Some vs ->
-  hstep_z st (ZHRestrict d a cube) = zfinish C d (zrestrict_edge C (cgN st) (caN st) (FUELZ st) (hz_s C st) (hz_c C st) f vs).
+  hstep_z st (ZHRestrict d a cube) = zfinish C d (zrestrict_edge C cget cadd (FUELZ st) (hz_s C st) (hz_c C st) f vs).
 Proof. intros st d a cube f vs Ef Ev. simpl. rewrite Ef, Ev. reflexivity. Qed.
 
 Theorem hstep_z_terminals : forall st d,
@@ -118,11 +117,11 @@ Theorem hstep_z_singleton : forall st d v,
 Proof. reflexivity. Qed.
 
 Theorem hstep_z_sub : forall st op d a v f, zslot C st a = Some f ->
-  hstep_z st (ZHSub op d a v) = zfinish C d (zsubset_top C (cgN st) (caN st) (FUELZ st) (hz_s C st) (hz_c C st) op f v).
+  hstep_z st (ZHSub op d a v) = zfinish C d (zsubset_top C cget cadd (FUELZ st) (hz_s C st) (hz_c C st) op f v).
 Proof. intros st op d a v f Ef. simpl. rewrite Ef. reflexivity. Qed.
 
 Theorem hstep_z_set : forall st op d a b f g, zslot C st a = Some f -> zslot C st b = Some g ->
-  hstep_z st (ZHSet op d a b) = zfinish C d (zapply gt C (cgN st) (caN st) (FUELZ st) (hz_s C st) (hz_c C st) op f g).
+  hstep_z st (ZHSet op d a b) = zfinish C d (zapply gt C cget cadd (FUELZ st) (hz_s C st) (hz_c C st) op f g).
 Proof. intros st op d a b f g Ef Eg. simpl. rewrite Ef, Eg. reflexivity. Qed.
 
 Theorem hstep_z_make_node : forall st d var hi lo v h l,
